@@ -34,12 +34,7 @@ EXPECTED = [
 
 
 def build(S, tier, seed):
-    act = _base(S)
-    S.verify(trashdirs.HomeTrashDirPath())
-    S.verify(trashdirs.VolumeOf())
-    S.verify(put.Finder(), active=act)
-    S.verify(put.MkdirP())
-    S.verify(put.MakeCandidateDirs(), active=[put.MkdirP().key])
+    act = put.leaf_vcs(S)
     put.trash_file_in_vc(S, conservation=False)
     put.trash_file_vc(S)
 
